@@ -114,7 +114,7 @@ impl Ctx {
 
     /// Wall-clock budget (seconds) for the enumeration part of this tier.
     pub fn budget_s(&self) -> f64 {
-        let base = self.tier.pick(40.0, 600.0);
+        let base = self.tier.pick(50.0, 600.0);
         std::env::var("VERIF_BUDGET_S").ok().and_then(|s| s.parse().ok()).unwrap_or(base)
     }
 
@@ -174,6 +174,19 @@ impl Ctx {
                 println!("note: known finding {} did not reproduce in this run (tier {})", f.key, self.tier.name());
             }
         }
+        // thorough tier: ./check ran the complete quick tier first; keep what it covered
+        if let Some(q) = std::env::var("VERIF_QUICK_PASS").ok().and_then(|p| std::fs::read_to_string(p).ok()).and_then(|t| serde_json::from_str::<Value>(&t).ok()) {
+            let qc = &q["coverage"];
+            let mut m = Map::new();
+            for k in ["evaluations", "distinct_nontrivial", "states", "transitions", "traces_validated_against_impl", "exhaustive", "violation_keys", "known_finding_cases"] {
+                if !qc[k].is_null() {
+                    m.insert(k.into(), qc[k].clone());
+                }
+            }
+            m.insert("wall_s".into(), q["wall_s"].clone());
+            m.insert("violations".into(), q["violations"].clone());
+            coverage.insert("preceding_quick_tier_pass".into(), Value::Object(m));
+        }
         coverage.insert("known_finding_cases".into(), json!(st.known_hits.iter().map(|(k, v)| (k.clone(), v.0)).collect::<BTreeMap<_, _>>()));
         coverage.insert("violation_keys".into(), json!(st.violation_keys));
         let ev = json!({
@@ -189,7 +202,7 @@ impl Ctx {
         if self.replay.is_none() {
             let dir = format!("{VERIF_ROOT}/evidence");
             std::fs::create_dir_all(&dir).ok();
-            let path = format!("{dir}/{}.json", self.id);
+            let path = std::env::var("VERIF_EVIDENCE_PATH").unwrap_or_else(|_| format!("{dir}/{}.json", self.id));
             if let Err(e) = std::fs::write(&path, serde_json::to_string_pretty(&ev).unwrap() + "\n") {
                 machinery(&format!("cannot write evidence {path}: {e}"));
             }
